@@ -82,8 +82,16 @@ def run(tier):
         s = r.choice([x for x in sugars if len(SUGARS[x]) >= 3])
         k = r.randint(2, min(4, len(SUGARS[s])))
         ps = r.sample(SUGARS[s], k)
-        ms = [(p, r.choice(["S", "P", "Ac", "Me", "F", "Bz", "Pam", "Cl", "Bn", "Lac", "Ala", "N", "Gc", "Br", "Pyr", "TBS", "Ts", "Ole"])) for p in ps]
+        ms = [(p, r.choice(["S", "P", "Ac", "Me", "F", "Bz", "Pam", "Cl", "Bn", "Lac", "Ala", "N", "Gc", "Br", "Pyr", "TBS", "Ts", "Ole", "THP", "Fmoc", "NAP", "N3", "I", "Tr", "MOM", "Boc"])) for p in ps]
         multis.append((s, ms))
+    # every group once as the lower-numbered of two modifications (and once as the higher-numbered one), with a plain
+    # partner at the other end of the residue: what one group does to the residue must not disturb the other
+    for tok in (sorted(toks) if tier == "thorough" else r.sample(sorted(toks), 24) + [t for t in ("THP", "Fmoc", "NAP", "N", "F", "N3") if t in toks]):
+        s = r.choice(["Glc", "Gal", "Man", "Fruf", "Neu5Ac", "Kdo", "Galf", "GlcNAc"])
+        lo_, hi_ = min(SUGARS[s]), max(SUGARS[s])
+        partner = r.choice(["Ac", "S", "P", "Me"])
+        multis.append((s, [(lo_, tok), (hi_, partner)]))
+        multis.append((s, [(lo_, partner), (hi_, tok)]))
     names = set(SUGARS)
     for s, p, tok in singles:
         names.add(f"{s}{p}{tok}")
@@ -278,7 +286,7 @@ def run(tier):
                     {"no_failing_input": True, "what_no_longer_checks": broken, "theorems": names_thm})
     report.assumptions = ["the group a token stands for is the fragment of the regenerated functional_groups table; how it attaches (carried by the position's O/N, sharing its leading O, or replacing the heteroatom for N / halogen-led fragments) is Spec/Modify.fragment_kind",
                           "fatty acyl groups in carbon notation stand for what Spec/Acyl.v says (checked against the named fatty acids of the table by C04_named_fatty_acids_are_their_designation); cis/trans geometry is compared (Iso.ez_same)"]
-    extra = {"rule": "single modifications: (quick) one hexose x every group token + every sugar x 18 tokens, (thorough) every sugar x every free position x every group token; sets of 2-4 modifications on one residue in up to 8 (all, if fewer) orders of writing",
+    extra = {"rule": "single modifications: (quick) one hexose x every group token + every sugar x 18 tokens, (thorough) every sugar x every free position x every group token; sets of 2-4 modifications on one residue in up to 8 (all, if fewer) orders of writing, among them every group once as the lower- and once as the higher-numbered of a pair",
              "group_tokens": len(toks), **stats, "print_assumptions": res.assumptions.get(f"Props/{PROP}.v", "").strip().splitlines()[-4:]}
     return report.finish("proof", ob, dis, names_thm, trusted=C.TRUSTED, extra=extra)
 
